@@ -28,6 +28,8 @@ struct Fixture<G: AffineRepr> {
     proof: R1CSProof<G>,
     mirror: Mirror<G>,
     bytes: Vec<u8>,
+    /// generators sufficient for the first phase but not for the whole circuit (two-phase only)
+    small_gens: Option<ark_bulletproofs::BulletproofGens<G>>,
 }
 
 fn fixtures<G: AffineRepr>(env: &Env<G>, seed: u64) -> Vec<Fixture<G>> {
@@ -39,7 +41,9 @@ fn fixtures<G: AffineRepr>(env: &Env<G>, seed: u64) -> Vec<Fixture<G>> {
         if let Ok(p) = po.proof {
             if let Some(m) = Mirror::of(&p) {
                 let bytes = m.to_bytes();
-                v.push(Fixture { name: format!("n1={},n2={}", n1, n2), prog, vs: po.vs, proof: p, mirror: m, bytes });
+                let first = n1.next_power_of_two().max(1);
+                let small_gens = if *n2 > 0 && first < (n1 + n2).next_power_of_two() { Some(ark_bulletproofs::BulletproofGens::<G>::new(first, 1)) } else { None };
+                v.push(Fixture { name: format!("n1={},n2={}", n1, n2), prog, vs: po.vs, proof: p, mirror: m, bytes, small_gens });
             }
         }
     }
@@ -124,6 +128,17 @@ fn verify_all<G: AffineRepr>(ch: &mut Child, env: &Env<G>, id: &str, fx: &Fixtur
     let len = fx.bytes.len();
     if let Some(r) = ch.call(id, "verify", len, || crate::interp::cur::verify_program::<G>(&fx.prog, &fx.vs, obj, &env.pc, &env.bp).res) {
         ch.hit(format!("{}:verify:{}", class, res_name(&r)));
+    }
+    // the same call with a generator set that covers the first phase only (two-phase statements):
+    // an error value, never a panic
+    if let Some(small) = &fx.small_gens {
+        if let Some(r) = ch.call(id, "verify[first-phase-sized generators]", len, || crate::interp::cur::verify_program::<G>(&fx.prog, &fx.vs, obj, &env.pc, small).res) {
+            ch.hit(format!("{}:verify-small-gens:{}", class, res_name(&r)));
+        }
+        let it = [(&fx.prog, &fx.vs[..], obj)];
+        if let Some((r, _, _)) = ch.call(id, "batch_verify[first-phase-sized generators]", len, || batch::<G>(env, &it, small, 6)) {
+            ch.hit(format!("{}:batch-small-gens:{}", class, res_name(&r)));
+        }
     }
     let items1 = [(&fx.prog, &fx.vs[..], obj)];
     if let Some((r, _, _)) = ch.call(id, "batch_verify[1]", len, || batch::<G>(env, &items1, &env.bp, 7)) {
